@@ -38,6 +38,7 @@ LAYOUTS = {
     'nested_sub': (['a/f1', 'a/c/f2', 'b/f3', 'f0'], ['a']),
     'lookalike': (['a/f1', 'ab/f2', 'ab/a/f3'], ['ab']),
     'hidden': (['a/f1', 'b/.hid', '.hd/f2', 'b/f3'], []),
+    'hidden_nested': (['a/.hd/f1', 'a/f2', 'a/c/.hd2/f3', 'b/f4'], []),
     'six': (['a/f1', 'a/f2', 'b/f3', 'b/c/f4', 'd/f5', 'f0'], ['b']),
 }
 STATES = ('ok', 'missing', 'altered', 'resized', 'dir')
@@ -72,7 +73,13 @@ def build(layout, states, strays):
             del t.files[p]
             t.dirs.add(p)
     for d in strays:
-        t.files[os.path.join(d, 'stray') if d else 'stray'] = b's'
+        name = 'stray'
+        if d.endswith('#M'):
+            # a stray file that is named like a Manifest (only the real top-level one may be skipped)
+            d, name = d[:-2], 'Manifest'
+        # (the Manifest-named stray is an empty, i.e. syntactically valid, Manifest: the CLI's top-level
+        # discovery parses every file called Manifest on the way up)
+        t.files[os.path.join(d, name) if d else name] = b's' if name == 'stray' else b''
     return t
 
 
@@ -195,6 +202,8 @@ def run_shard(spec, tier, seed, scratch):
     if s0 not in state_menu:
         return stats
     stray_sets = [()] + [(d,) for d in dirs] + [tuple(dirs)]
+    stray_sets += [(d + '#M',) for d in dirs if d and d not in _subs]
+    stray_sets += [tuple(d + '#M' for d in dirs if d and d not in _subs) + ('',)]
     for rest in itertools.product(state_menu, repeat=nfiles - 1):
         states = (s0,) + rest
         for strays in stray_sets:
@@ -206,6 +215,10 @@ def run_shard(spec, tier, seed, scratch):
                 for policy in POLICIES:
                     for order in ('sorted', 'reversed'):
                         if policy in ('true', 'none') and order == 'reversed':
+                            continue
+                        if tier == 'quick' and (policy == 'none' or (order == 'reversed' and policy != 'false')):
+                            continue
+                        if tier == 'quick' and any(x.endswith('#M') for x in strays) and policy not in ('false', 'first_false'):
                             continue
                         desc = (layout, states, strays, path, policy, order)
                         case = {'tree': tj, 'path': path, 'policy': policy, 'order': order,
